@@ -16,11 +16,14 @@ META = {
         "private, public, dunder and single-underscore slots and a name with leading and trailing underscores); C07.4 "
         "jsonrpc.dump / jsonrpc.load hand parameters and results to jsonclass with the caller's configuration, so both "
         "directions take the same path; C07.5 the constructor arguments of a descriptor are applied as json_class(*params) "
-        "for lists and json_class(**params) for dicts, and dump emits [str(obj)] for Decimal and [obj.value] for Enum."),
+        "for lists and json_class(**params) for dicts, and dump emits [str(obj)] for Decimal and [obj.value] for Enum; C07.6 the "
+        "per-request Config copy carries the serialisation settings and class table (shared with C13.2); C07.7 dispatcher, server, "
+        "proxy and transport keep the caller's Config object itself, so a class registered in its local table later is seen."),
     "does_not_decide": "equality of the reloaded fields for generated class shapes, importability of the emitted class "
                        "name, enum/Decimal value fidelity (value-level round trip over a space of programs).",
     "rules": {"C07.1": "provenance of the classes argument at recursive call sites", "C07.2": "call-graph / loop structure",
-              "C07.3": "shape interpreter on _slots_finder", "C07.4": "provenance of config arguments", "C07.5": "dominating isinstance branch of each constructor call"},
+              "C07.3": "shape interpreter on _slots_finder", "C07.4": "provenance of config arguments", "C07.5": "dominating isinstance branch of each constructor call",
+              "C07.6": "sibling agreement Config.__init__/copy", "C07.7": "provenance of the stored config"},
     "assumptions": ["Python's class-private mangling is '_' + class name stripped of leading underscores + name"],
 }
 
@@ -166,6 +169,31 @@ def check(ck):
         ck.require(dump(c.args[0]) == want, "C07.5", "%s: %s branch emits %s" % (q.fn(fdump), fn_, dump(c.args[0])), want,
                    "%s objects are dumped with constructor arguments %s instead of %s" % (fn_[9:], dump(c.args[0]), want), q.loc(fdump, n))
     ck.floor("C07.5", 6)
+
+    # ---- C07.7 long-lived objects keep the caller's Config object itself (not a snapshot) ---------------------------------
+    n7 = 0
+    for (mod, qual, field) in (("SimpleJSONRPCServer", "SimpleJSONRPCDispatcher.__init__", "json_config"),
+                               ("SimpleJSONRPCServer", "SimpleJSONRPCServer.__init__", "json_config"),
+                               ("jsonrpc", "ServerProxy.__init__", "_config"), ("jsonrpc", "TransportMixIn.__init__", "_config")):
+        fi = prog.func(mod, qual)
+        gi = cfg_of(fi)
+        stores = [n for n in gi.live_nodes() if n.kind == "stmt" and isinstance(n.ast, ast.Assign) and any(dump(t) == "self." + field for t in n.ast.targets)]
+        if not stores and qual == "SimpleJSONRPCServer.__init__":
+            # inherited from the dispatcher constructor, which must then receive the very config
+            calls = [(n, c) for n in gi.live_nodes() for c in node_calls(n) if dump(c.func) == "SimpleJSONRPCDispatcher.__init__"]
+            okk = bool(calls) and prov.origin(gi, calls[0][0], calls[0][1].args[2]) == ("param", "config") if calls and len(calls[0][1].args) > 2 else False
+            n7 += 1
+            ck.require(okk, "C07.7", "%s: config handed to the dispatcher constructor" % q.fn(fi), "Param(config) itself",
+                       "the server does not keep the caller's Config object", q.loc(fi, fi.node))
+            continue
+        for n in stores:
+            n7 += 1
+            t = prov.origin(gi, n, n.ast.value)
+            ck.require(t == ("param", "config"), "C07.7", "%s: self.%s = config" % (q.fn(fi), field), "the caller's Config object itself",
+                       "self.%s is bound to %s instead of the Config object given by the caller: classes / handlers registered on that Config after "
+                       "construction (config.classes.add(...)) are not seen by this object" % (field, prov.show(t)), q.loc(fi, n))
+    if n7 < 3:
+        raise AnalysisError("anchor vanished: config stores of the long-lived objects (found %d)" % n7)
 
     # ---- C07.6 the per-request configuration copy keeps the serialisation settings ------------------------
     common.check_config_copy(ck, "C07.6", only=("serialize_method", "ignore_attribute", "serialize_handlers", "classes", "use_jsonclass"))
